@@ -112,7 +112,8 @@ def run_tlc(
     if not os.path.exists(cfg_path):
         cfg_path = cfg if os.path.isabs(cfg) else os.path.join(sd, cfg)
     meta = tempfile.mkdtemp(prefix="tlcmeta_")
-    cmd = ["java", "-XX:+UseParallelGC", "-Xmx8g"]
+    # TLC unpacks its standard modules into java.io.tmpdir and never removes them: keep that inside the run's scratch
+    cmd = ["java", "-XX:+UseParallelGC", "-Xmx8g", f"-Djava.io.tmpdir={meta}"]
     cmd += java_opts or []
     cmd += ["-cp", JAR_CP, "tlc2.TLC"]
     cmd += ["-workers", str(workers), "-metadir", meta, "-noGenerateSpecTE", "-config", cfg_path]
